@@ -46,7 +46,8 @@ Template(nm, inl, paren, unit, blk) ==
                  SLet(PId("m"), T8, V("k")),
                  SLet(PId("s"), T8, ECall(CFold(nm["foldfn"], 2), <<EList(<<Dec(1)>>), V("m")>>)),
                  SLet(PId("t"), TEither(T8, T8), ECall(CForWhile(nm["loopfn"]), <<V("s"), Dec(0)>>)),
-                 SLet(PId("r"), T8, Call1(CUnwrapRight(T8), V("t"))),
+                 SLet(PId("r"), T8, Call1(CUnwrapRight(AL), V("t"))),
+                 SLet(PId("n1"), TBool, Call1(CIsNone(AL), ENone)),
                  SLet(PId("x"), T8, EWit("EXP"))>> \o Obs(T8, "r", "x")))>>
 
 Names(role, id) == [r \in Roles |-> IF r = role THEN id ELSE Default(r)]
